@@ -511,7 +511,7 @@ func genTaskSteps(r *Rng, nops int, sharedMsg *MsgSpec, sharedProt *Step, allowS
 				d[16], d[17], d[18], d[19] = t, 0x20, 37, 8
 				total := 28 + l
 				d[24], d[25], d[26], d[27] = byte(total>>24), byte(total>>16), byte(total>>8), byte(total)
-				d = append(d, 0, 0x80, byte(l>>8), byte(l))
+				d = append(d, 0, Pick[uint8](r, 0x80, 0x80, 0x00), byte(l>>8), byte(l)) // critical: refused; not critical: skipped
 				d = append(d, body...)
 				steps = append(steps, Step{Op: "decode_raw", Data: d})
 			}
